@@ -156,7 +156,8 @@ def gen_plan(rng: random.Random, tier: str) -> dict:
             kind = "rlv"
         elif inbound and with_objects and y < 0.6:
             kind = "objkill" if obj_tags and y < 0.4 else "obj"
-        n_cmds = rng.randint(1, 3) if kind == "rlv" else 0
+        # (an owner-say that starts with "@" but carries no command at all is still a chat message somebody sent)
+        n_cmds = rng.choice([0, 1, 1, 2, 3]) if kind == "rlv" else 0
 
         def pick(pool):
             return rng.choice(pool) if not quiet or rng.random() < 0.15 else "falsy"
@@ -755,6 +756,8 @@ def run_plan(plan: dict) -> RunResult:
                     return
                 if st["kind"] == "rlv":
                     chat = "@" + ",".join(f"c{ci}=n" for ci in range(len(st["rlv"])))
+                    if not st["rlv"]:
+                        res.probe("rlv_marker_without_commands")
                     body = G.chat_from_simulator_body(chat, from_name=f"#{tag}#", chat_type=8)
                 elif st["kind"] == "obj":
                     body = O.object_update_body(reg.handle, [(obj_local(tag, i), obj_local(tag, i), 0)
